@@ -34,6 +34,10 @@ def run(ctx):
     core.check_suite(ctx, "SQ-unquoters", ureqs, split=True, cross=True, nontrivial=lambda rs: set())
     big = gens.growth_boundary_strings(ctx.rng, ks=(1, 2) if ctx.quick else (1, 2, 3, 4))
     breqs = [("quote", [i, s]) for i in (1, 4) for s in big]
+    single = gens.single_change_at_boundary(ks=(1, 2) if ctx.quick else (1, 2, 3, 4))
+    breqs += [("quote", [i, s]) for i in (1, 4, 6) for s in single]
+    core.check_suite(ctx, "SQ-growth-unquoters", [("unquote", [i, s]) for i in range(NU) for s in single[::3]], split=True, cross=True,
+                     nontrivial=lambda rs: set())
     core.check_suite(ctx, "SQ-growth-boundaries", breqs, split=True, cross=True, pred="c05_quote_pred", nontrivial=lambda rs: set())
     # URL level: every observation is independent of the backend
     import suites
